@@ -82,6 +82,29 @@ def gen_template(rng, k):
                 body.append("%s === %s * 2;" % (rng.choice(rhs[:2]), t))
         if rng.chance(1, 4):
             body.append("%s * %s === in[0];" % (rng.choice(sorted(used)), rng.choice(["in[1]", "2"])))
+    # the same signal assigned with `<--` on one branch and constrained with `<==` on the other (a component port as well), a whole array
+    # assigned at once and constrained element by element, elements assigned in one loop and constrained in another (audit C08 round 2)
+    extra_decl = []
+    form = rng.below(5)
+    cand = [t for t in targets if t not in used]
+    if form == 0 and cand:
+        t = rng.choice(cand)
+        used.add(t)
+        body.append("if (n == %d) { %s <-- %s; } else { %s <== %s; }" % (rng.below(3), t, rng.choice(rhs), t, rng.choice(rhs[:2] + ["in[1] + 2"])))
+    elif form == 1:
+        extra_decl.append("signal r[2];")
+        body.append("r <-- [%s, %s];" % (rng.choice(rhs), rng.choice(rhs)))
+        for k2 in range(2):
+            if rng.chance(2, 3):
+                body.append("r[%d] * 2 === %s;" % (k2, rng.choice(rhs[:2])))
+    elif form == 2:
+        extra_decl.append("signal q[3];")
+        body.append("for (var i = 0; i < 3; i++) { q[i] <-- in[i] * in[i] * in[i]; }")
+        if rng.chance(2, 3):
+            body.append("for (var %s = 0; %s < 3; %s++) { q[%s] * 2 === in[%s]; }" % (("j",) * 5 if rng.chance(1, 2) else ("i",) * 5))
+        if rng.chance(1, 3):
+            body.append("q[1] === in[0];")
+    lines += extra_decl
     free = [t for t in ["out[0]", "out[1]", "out[2]"] + ["s%d" % i for i in range(nsig)] if t not in used]
     if len(free) >= 2 and rng.chance(1, 3):
         a, b = free[0], free[1]
@@ -131,14 +154,58 @@ def norm(t):
     return re.sub(r"\s+", "", t)
 
 
+def parse_chain(s, i):
+    """the access chain that follows position i of the (blank-free) text: [("idx", text) | ("port", name)], end position"""
+    chain = []
+    while i < len(s):
+        if s[i] == "[":
+            depth, j = 0, i
+            while j < len(s):
+                depth += s[j] == "["
+                depth -= s[j] == "]"
+                j += 1
+                if depth == 0:
+                    break
+            chain.append(("idx", s[i + 1:j - 1]))
+            i = j
+        elif s[i] == "." and i + 1 < len(s) and (s[i + 1].isalpha() or s[i + 1] in "_$"):
+            m = re.match(r"[A-Za-z_$][\w$]*", s[i + 1:])
+            chain.append(("port", m.group(0)))
+            i += 1 + len(m.group(0))
+        else:
+            break
+    return chain, i
+
+
+def may_alias(a, b):
+    """two access chains may denote the same signal, or one a part of the other: equal port names, and no position where both
+    indices are literals with different values (the reading of `mentions the assigned signal` that does not depend on how an index
+    is spelled: `r[i]` in one loop and `r[j]` in another, the whole array `r` and its element `r[0]`)"""
+    for (ka, xa), (kb, xb) in zip(a, b):
+        if ka != kb:
+            return False
+        if ka == "port" and xa != xb:
+            return False
+        if ka == "idx" and re.fullmatch(r"\d+", xa) and re.fullmatch(r"\d+", xb) and int(xa) != int(xb):
+            return False
+    return True
+
+
 def mentions(stmt_text, target):
     t = norm(target)
+    m0 = re.match(r"[A-Za-z_$][\w$]*", t)
+    if not m0:
+        return False
+    tchain, _ = parse_chain(t, m0.end())
     s = norm(stmt_text)
-    for m in re.finditer(re.escape(t), s):
-        a, b = m.start(), m.end()
-        before = s[a - 1] if a > 0 else " "
-        after = s[b] if b < len(s) else " "
-        if not (before.isalnum() or before in "_$.") and not (after.isalnum() or after in "_$[."):
+    for m in re.finditer(r"[A-Za-z_$][\w$]*", s):
+        if m.group(0) != m0.group(0):
+            continue
+        before = s[m.start() - 1] if m.start() > 0 else " "
+        if before.isalnum() or before in "_$.":
+            continue
+        chain, _ = parse_chain(s, m.end())
+        if may_alias(chain, tchain):
             return True
     return False
 
@@ -155,8 +222,17 @@ def abstract_stmts(ssa):
         return v
 
     def key(var, access):
+        """<id>~<name>~<acc;…>: the identity of the use (signal and exact access), and what the comparison of accesses looks at: the name
+        (with the suffix of the renaming) and per step the port name or the value constant propagation knows for the index"""
         blob = json.dumps([var[1], var[2], erase(access)])
-        return "k" + hashlib.sha1(blob.encode()).hexdigest()[:10]
+        accs = []
+        for a in access:
+            if a[0] == "cmp":
+                accs.append("P" + a[1])
+            else:
+                v = a[1][1][3] if isinstance(a[1], list) and len(a[1]) > 1 and isinstance(a[1][1], list) and a[1][1][:1] == ["m"] else "-"
+                accs.append("I" + ("-" if v == "-" else "%s%s" % (v[0], v[1])))
+        return "k%s~%s.%s~%s" % (hashlib.sha1(blob.encode()).hexdigest()[:10], var[1], var[2], ";".join(accs) or "-")
 
     def reads(e, acc):
         if isinstance(e, list) and e:
@@ -180,14 +256,17 @@ def abstract_stmts(ssa):
                 q = d != "-" and d[1] in ("c", "l", "q")
                 toks.append("A:%s:%s:%d" % (loc, key(body[2], access), 1 if q else 0))
             elif body[0] == "sub" and body[3] == "csig":
-                acc = [key(body[2], [])]
-                reads(body[4], acc)
-                toks.append("C:%s:%s" % (loc, ",".join(sorted(set(acc)))))
+                # `target <== value`: the constraint records the value and the target, not the update expression (which also reads the
+                # previous value of the whole variable)
+                acc = []
+                reads(body[4][4] if body[4][0] == "upd" else body[4], acc)
+                access = body[4][3] if body[4][0] == "upd" else []
+                toks.append("C:%s:%s:%s" % (loc, ",".join(sorted(set(acc))) or "-", key(body[2], access)))
             elif body[0] == "ceq":
                 acc = []
                 reads(body[2], acc)
                 reads(body[3], acc)
-                toks.append("C:%s:%s" % (loc, ",".join(sorted(set(acc))) or "-"))
+                toks.append("C:%s:%s:-" % (loc, ",".join(sorted(set(acc))) or "-"))
             else:
                 toks.append("O")
     return toks
